@@ -39,7 +39,93 @@ proof fn lemma_tok(a: &LexArgs)
 }
 '''
 
+CMTSPEC = '''
+// ---- comments, directives, string helpers: "first occurrence" vocabulary over a window of the text ----
+pub open spec fn no_byte(h: Seq<u8>, upto: int, n: u8) -> bool { forall|k: int| 0 <= k < upto ==> #[trigger] h[k] != n }
+pub open spec fn no_byte2(h: Seq<u8>, upto: int, a: u8, b: u8) -> bool { forall|k: int| 0 <= k < upto ==> #[trigger] h[k] != a && h[k] != b }
+pub open spec fn no_byte3(h: Seq<u8>, upto: int, a: u8, b: u8, c: u8) -> bool { forall|k: int| 0 <= k < upto ==> #[trigger] h[k] != a && h[k] != b && h[k] != c }
+pub open spec fn pair_at(h: Seq<u8>, k: int, a: u8, b: u8) -> bool { 0 <= k && k + 1 < h.len() && h[k] == a && h[k + 1] == b }
+// (the trigger is the named predicate: a trigger on h[k] with h[k + 1] in the body would be a matching loop)
+pub open spec fn no_pair(h: Seq<u8>, upto: int, a: u8, b: u8) -> bool { forall|k: int| 0 <= k < upto ==> !#[trigger] pair_at(h, k, a, b) }
+pub open spec fn matches_at(h: Seq<u8>, k: int, n: Seq<u8>) -> bool { 0 <= k && k + n.len() <= h.len() && forall|j: int| 0 <= j < n.len() ==> #[trigger] h[k + j] == n[j] }
+pub proof fn lemma_run_of_all(s: Seq<u8>, from: int, cls: spec_fn(u8) -> bool)
+    requires 0 <= from <= s.len()
+    ensures from + run_of(s, from, cls) <= s.len(), forall|i: int| from <= i < from + run_of(s, from, cls) ==> cls(#[trigger] s[i])
+    decreases s.len() - from
+{
+    if from < s.len() && cls(s[from]) { lemma_run_of_all(s, from + 1, cls); }
+}
+pub open spec fn ascii_bounds_ok(s: Seq<u8>) -> bool {
+    is_char_boundary(s, s.len() as int) && forall|i: int| 0 <= i < s.len() && #[trigger] s[i] < 0x80 ==> is_char_boundary(s, i) && is_char_boundary(s, i + 1)
+}
+pub proof fn lemma_no_byte3_abs(s: Seq<u8>, lo: int, n: int, a: u8, b: u8, c: u8)
+    requires 0 <= lo, 0 <= n, lo + n <= s.len(), no_byte3(s.subrange(lo, s.len() as int), n, a, b, c)
+    ensures forall|i: int| lo <= i < lo + n ==> #[trigger] s[i] != a && s[i] != b && s[i] != c
+{
+    assert forall|i: int| lo <= i < lo + n implies #[trigger] s[i] != a && s[i] != b && s[i] != c by {
+        assert(s.subrange(lo, s.len() as int)[i - lo] == s[i]);
+    }
+}
+// bytes an escaped-character sequence (#13, #$0D, #%1010) is made of
+pub open spec fn esc_byte(b: u8) -> bool { b == 0x23 || b == 0x24 || b == 0x25 || is_hex_digit(b) }
+spec fn spec_block_kind(nl_before: bool, nl_inside: bool) -> CommentKind {
+    if nl_inside { CommentKind::MultilineBlock } else if nl_before { CommentKind::IndividualBlock } else { CommentKind::InlineBlock }
+}
+spec fn tail(a: &LexArgs) -> Seq<u8> { a.input.spec_bytes().subrange(a.offset as int, blen(a)) }
+spec fn head(a: &LexArgs) -> Seq<u8> { a.input.spec_bytes().subrange(0, a.offset as int) }
+// "first on its line": nothing but the start of the text, or a line break somewhere before
+spec fn nl_before(a: &LexArgs, is_first: bool) -> bool { is_first || !no_byte2(head(a), a.offset as int, 0x0a, 0x0d) }
+proof fn lemma_all_ascii_boundaries(s: Seq<u8>)
+    requires valid_utf8(s)
+    ensures is_char_boundary(s, s.len() as int), is_char_boundary(s, 0),
+            forall|i: int| 0 <= i < s.len() && #[trigger] s[i] < 0x80 ==> is_char_boundary(s, i) && is_char_boundary(s, i + 1)
+{
+    is_char_boundary_start_end_of_seq(s);
+    assert forall|i: int| 0 <= i < s.len() && #[trigger] s[i] < 0x80 implies is_char_boundary(s, i) && is_char_boundary(s, i + 1) by {
+        lemma_ascii_boundaries(s, i);
+    }
+}
+// ASSUMED contracts of the memchr crate (dependency; documented behaviour: index of the first match, None when there is none)
+pub mod memchr {
+    use vstd::prelude::*;
+    use super::*;
+    #[verifier::external_body]
+    pub fn memchr(n: u8, h: &[u8]) -> (r: Option<usize>)
+        ensures match r { Some(i) => i < h@.len() && h@[i as int] == n && no_byte(h@, i as int, n), None => no_byte(h@, h@.len() as int, n) }
+    { unimplemented!() }
+    #[verifier::external_body]
+    pub fn memchr2(a: u8, b: u8, h: &[u8]) -> (r: Option<usize>)
+        ensures match r { Some(i) => i < h@.len() && (h@[i as int] == a || h@[i as int] == b) && no_byte2(h@, i as int, a, b), None => no_byte2(h@, h@.len() as int, a, b) }
+    { unimplemented!() }
+    #[verifier::external_body]
+    pub fn memchr3(a: u8, b: u8, c: u8, h: &[u8]) -> (r: Option<usize>)
+        ensures match r { Some(i) => i < h@.len() && (h@[i as int] == a || h@[i as int] == b || h@[i as int] == c) && no_byte3(h@, i as int, a, b, c), None => no_byte3(h@, h@.len() as int, a, b, c) }
+    { unimplemented!() }
+    pub mod memmem {
+        use vstd::prelude::*;
+        use super::super::*;
+        #[verifier::external_body]
+        pub fn find(h: &[u8], n: &[u8]) -> (r: Option<usize>)
+            ensures match r {
+                Some(i) => i + n@.len() <= h@.len() && matches_at(h@, i as int, n@) && (n@.len() > 0 ==> h@[i + n@.len() - 1] == n@[n@.len() - 1]) && (forall|k: int| 0 <= k < i ==> !matches_at(h@, k, n@))
+                           && (n@.len() == 2 ==> pair_at(h@, i as int, n@[0], n@[1]) && no_pair(h@, i as int, n@[0], n@[1])),
+                None => (forall|k: int| !matches_at(h@, k, n@)) && (n@.len() == 2 ==> no_pair(h@, h@.len() as int, n@[0], n@[1])) }
+        { unimplemented!() }
+    }
+}
+'''
+
 PRO = '    proof { lemma_tok(&args); }'
+PROALL = '    proof { lemma_tok(&args); lemma_all_ascii_boundaries(args.input.spec_bytes()); }'
+
+# D13: a struct pattern in parameter position is re-bound by a leading `let` (Verus takes plain identifiers only)
+def d13(pattern):
+    return (pattern + ': LexArgs,', 'args: LexArgs,', 'D13')
+# D14: byte-string literal re-emitted as an array literal (Verus knows only the length of a byte-string literal)
+D14_STAR_PAREN = ('b"*)"', "&[b'*', b')']", 'D14')
+# D15: contract spliced onto a closure (`|o| E` => `|o| -> (q: usize) requires E <= usize::MAX ensures q == E { E }`, E verbatim)
+D15_MAP = (re.compile(r'\.map\(\|o\| ([^(){}|]+?)\)'), r'.map(|o| -> (q: usize) requires \1 <= usize::MAX ensures q == \1 { \1 })', 'D15')
+
 
 
 def two_char(byte, kind2):
@@ -51,6 +137,7 @@ def build(u):
     L.lang_module(u)
     L.lexer_prelude(u)
     u.raw(OPSPEC)
+    u.raw(CMTSPEC)
 
     # LexArgs methods
     u.raw("impl LexArgs<'_, '_> {\n")
@@ -113,16 +200,93 @@ def build(u):
     def assumed(name, header, kx, extra_req=None, ens=None, edits=None):
         u.stub(LEX, header, name=name, kx=kx, edits=edits,
                requires=['at_tok(&args)'] + (extra_req or []), ensures=['sub_ok(&args, r)'] + (ens or []))
-    DS = ("LexArgs {\n        input,\n        offset,\n        lex_state,\n    }: LexArgs,", "args: LexArgs,", 'D6')
-    assumed('line_comment', r'^fn line_comment\(', 'lexcomplex::line_comment', edits=[DS])
-    assumed('block_comment_alt', r'^fn block_comment_alt\(args: LexArgs\)', 'lexcomplex::block_comment')
-    assumed('block_comment', r'^fn block_comment\(args: LexArgs\)', 'lexcomplex::block_comment')
+    # D13 as a rewrite over header + body (vxgen joins them with \x00; the body starts with `{`)
+    D13 = (re.compile(r'(LexArgs \{[^}]*\}): LexArgs,?(\s*(?:\w+: [\w<>]+,\s*)*\)[^\x00]*\x00\{)'), r'args: LexArgs,\2\n    let \1 = args;', 'D13')
+    u.assume('D13: a struct pattern in parameter position (`LexArgs { input, offset, .. }: LexArgs`) is emitted as `args: LexArgs` plus a leading `let LexArgs { .. } = args;` (same bindings; Verus takes plain identifier parameters only)')
+    u.assume('D14: the byte-string literal b"*)" is emitted as the array literal &[b\'*\', b\')\'] (same value; Verus knows only the length of a byte-string literal)')
+    u.assume('D15: closures passed to Option::map get a spliced contract `requires E <= usize::MAX ensures q == E` around their verbatim body expression E (the overflow obligation of E stays an obligation of the enclosing function)')
+    u.assume('ASSUMED dependency contracts: memchr::{memchr, memchr2, memchr3} return the index of the first byte equal to one of the needles, memchr::memmem::find the index of the first occurrence of the needle, None when there is none (documented behaviour of the memchr crate; the Kani harnesses of lexcomplex run against a byte-loop shim with this behaviour, the NX stand-ins against the real crate)')
+    # consume_to_eof: unterminated comment / directive runs to the end of the text minus trailing blanks
+    u.stub(LEX, r'^fn consume_to_eof\(input: &str, token_type: RawTokenType\)', name='consume_to_eof', kx='lexcomplex::block_comment_unterminated',
+           ensures=['r.0 <= input.spec_bytes().len()', 'is_char_boundary(input.spec_bytes(), r.0 as int)', 'r.1 == token_type',
+                    # trailing blanks only: an ASCII non-blank byte is never trimmed
+                    'forall|p: int| 0 <= p < input.spec_bytes().len() && 0x20 < #[trigger] input.spec_bytes()[p] < 0x80 ==> p < r.0'])
     u.item(LEX, r'^enum BlockCommentKind \{', prefix='#[derive(Eq, PartialEq, Copy, Clone)]\n', name='enum BlockCommentKind')
+    u.fn(LEX, r'^fn block_comment_kind\(nl_before: bool, nl_inside: bool\)', name='block_comment_kind',
+         ensures=['nl_inside ==> r == CommentKind::MultilineBlock',
+                  '!nl_inside && nl_before ==> r == CommentKind::IndividualBlock',
+                  '!nl_inside && !nl_before ==> r == CommentKind::InlineBlock'])
+    # the closer of a block comment is the FIRST `}` resp. `*)` at or after the offset
+    u.fn(LEX, r'^fn find_block_comment_end\(', name='find_block_comment_end', edits=[D13, D14_STAR_PAREN, D15_MAP],
+         requires=['args.offset <= blen(&args)', 'blen(&args) <= isize::MAX'],
+         ensures=['kind == BlockCommentKind::Brace ==> match r {'
+                  ' Some(e) => args.offset < e <= blen(&args) && args.input.spec_bytes()[e - 1] == 0x7d && tail(&args)[e - args.offset - 1] == 0x7d && no_byte(tail(&args), e - args.offset - 1, 0x7d),'
+                  ' None => no_byte(tail(&args), blen(&args) - args.offset, 0x7d) }',
+                  'kind == BlockCommentKind::ParenStar ==> match r {'
+                  ' Some(e) => args.offset + 2 <= e <= blen(&args) && args.input.spec_bytes()[e - 2] == 0x2a && args.input.spec_bytes()[e - 1] == 0x29'
+                  '  && pair_at(tail(&args), e - args.offset - 2, 0x2a, 0x29) && no_pair(tail(&args), e - args.offset - 2, 0x2a, 0x29),'
+                  ' None => no_pair(tail(&args), blen(&args) - args.offset, 0x2a, 0x29) }',
+                  '*final(args.lex_state) == *old(args.lex_state)'])
+    # kind of a terminated block comment; an unterminated one runs to the end of the text
+    u.fn(LEX, r'^fn _block_comment\(', name='_block_comment', edits=[D13],
+         requires=['1 <= args.offset <= blen(&args)', 'blen(&args) <= isize::MAX', 'start_len <= args.offset',
+                   '0x20 < first(&args) < 0x80',
+                   'match end_offset { Some(e) => args.offset <= e <= blen(&args) && is_char_boundary(args.input.spec_bytes(), e as int), None => true }'],
+         ensures=['sub_ok(&args, r)',
+                  'match end_offset {'
+                  ' Some(e) => r.0 == e && r.1 == TT::Comment(spec_block_kind(nl_before(&args, old(args.lex_state).is_first),'
+                  ' !no_byte(args.input.spec_bytes().subrange(args.offset as int, e as int), e - args.offset, 0x0a))),'
+                  ' None => r.1 == TT::Comment(CommentKind::MultilineBlock) }',
+                  '*final(args.lex_state) == *old(args.lex_state)'],
+         opens_with='    proof { lemma_str_valid(args.input); }')
+    # lex_args_copy!(args) expanded from the macro_rules! body in the source (D3)
+    mcopy = re.search(r'macro_rules! lex_args_copy \{\n\s*\(\$args: ident\) => \{\n(.*?)\n    \};\n\}', u.src(LEX), re.S)
+    if not mcopy:
+        raise vxgen.LostAnchor('macro_rules! lex_args_copy not found in the expected shape')
+    copy_text = ' '.join(mcopy.group(1).replace('$args', 'args').split())
+    D3_COPY = ('lex_args_copy!(args)', copy_text, 'D3')
+    u.assume('D3: lex_args_copy!(args) expanded from the macro_rules! body found in the source')
+    for nm, fb, kind_, sl in (('block_comment_alt', '0x2a', 'ParenStar', 2), ('block_comment', '0x7b', 'Brace', 1)):
+        clause = ('no_pair(tail(&args), r.0 - args.offset - 2, 0x2a, 0x29)' if kind_ == 'ParenStar' else 'no_byte(tail(&args), r.0 - args.offset - 1, 0x7d)')
+        closer = ('r.0 >= args.offset + 2 && args.input.spec_bytes()[r.0 - 2] == 0x2a && args.input.spec_bytes()[r.0 - 1] == 0x29 && pair_at(tail(&args), r.0 - args.offset - 2, 0x2a, 0x29)' if kind_ == 'ParenStar'
+                  else 'r.0 > args.offset && args.input.spec_bytes()[r.0 - 1] == 0x7d')
+        none_ = ('no_pair(tail(&args), blen(&args) - args.offset, 0x2a, 0x29)' if kind_ == 'ParenStar' else 'no_byte(tail(&args), blen(&args) - args.offset, 0x7d)')
+        u.fn(LEX, r'^fn %s\(args: LexArgs\)' % nm, name=nm, edits=[D3_COPY],
+             requires=['at_tok(&args)', 'first(&args) == %s' % fb, 'args.offset >= %d' % sl],
+             ensures=['sub_ok(&args, r)', 'r.1 is Comment',
+                      # terminated: ends directly after the first closer; the kind says whether it holds a line feed / starts its line
+                      '!(%s) ==> %s && %s' % (none_, closer, clause),
+                      '!(%s) ==> r.1 == TT::Comment(spec_block_kind(nl_before(&args, old(args.lex_state).is_first),'
+                      ' !no_byte(args.input.spec_bytes().subrange(args.offset as int, r.0 as int), r.0 - args.offset, 0x0a)))' % none_,
+                      '(%s) ==> r.1 == TT::Comment(CommentKind::MultilineBlock)' % none_,
+                      '*final(args.lex_state) == *old(args.lex_state)'],
+             opens_with=PROALL)
+    # a line comment runs up to (not including) the first LF or CR, or to the end of the text
+    u.stub_call = None
+    u.raw("""
+// D11 call-site stub: `input[..offset].contains(['\\n', '\\r'])` (str slicing + char-array pattern are outside the subset).
+// ASSUMED: true iff some byte before `offset` is LF or CR; the dropped slicing needs a character boundary at `offset`.
+#[verifier::external_body]
+fn head_contains_line_break(input: &str, offset: usize) -> (r: bool)
+    requires offset <= input.spec_bytes().len(), is_char_boundary(input.spec_bytes(), offset as int)
+    ensures r == !no_byte2(input.spec_bytes().subrange(0, offset as int), offset as int, 0x0a, 0x0d)
+{ unimplemented!() }
+""")
+    u.fn(LEX, r'^fn line_comment\(', name='line_comment',
+         edits=[D13, ("input[..offset].contains(['\\n', '\\r'])", 'head_contains_line_break(input, offset)', 'D11'),
+                D15_MAP, ('.unwrap_or(input.len())', '.unwrap_or(input.as_bytes().len())', 'D5')],
+         requires=['at_tok(&args)'],
+         ensures=['sub_ok(&args, r)',
+                  'no_byte2(tail(&args), r.0 - args.offset, 0x0a, 0x0d)',
+                  'r.0 == blen(&args) || args.input.spec_bytes()[r.0 as int] == 0x0a || args.input.spec_bytes()[r.0 as int] == 0x0d',
+                  'r.1 == TT::Comment(if nl_before(&args, old(args.lex_state).is_first) { CommentKind::IndividualLine } else { CommentKind::InlineLine })',
+                  '*final(args.lex_state) == *old(args.lex_state)'],
+         opens_with=PROALL)
     u.stub(LEX, r'^fn compiler_directive\(args: LexArgs, kind: BlockCommentKind\)', name='compiler_directive', kx='lexcomplex::compiler_directive',
            requires=['at_tok(&args)'], ensures=['sub_ok(&args, r)'])
 
-    for nm, byte in (('compiler_directive_or_comment_alt', None), ('compiler_directive_or_comment', None)):
-        u.fn(LEX, r'^fn %s\(args: LexArgs\)' % nm, name=nm, requires=['at_tok(&args)'], ensures=['sub_ok(&args, r)'], opens_with=PRO)
+    for nm, extra in (('compiler_directive_or_comment_alt', ['first(&args) == 0x2a', 'args.offset >= 2']), ('compiler_directive_or_comment', ['first(&args) == 0x7b'])):
+        u.fn(LEX, r'^fn %s\(args: LexArgs\)' % nm, name=nm, requires=['at_tok(&args)'] + extra, ensures=['sub_ok(&args, r)'], opens_with=PRO)
     opfn('l_paren', '0x28', [
         two_char('0x2e', 'TT::Op(OK::LBrack)'),
         '!(has(&args, 0) && (byte_at(&args, 0) == 0x2e || byte_at(&args, 0) == 0x2a)) ==> r == ((args.offset, TT::Op(OK::LParen)))'])
@@ -226,6 +390,94 @@ proof fn lemma_dec_step(s: Seq<u8>, o: int)
                 {'at': 'warn_unterminated("asm text literal"', 'where': 'before',
                  'text': '    proof { if args.offset < bs.len() { lemma_ascii_boundaries(bs, args.offset as int); } else { is_char_boundary_start_end_of_seq(bs); } }'}])
 
+    # ---- the two helpers of text_literal (nested functions, extracted from inside it) ----
+    TL = r'^fn text_literal\('
+    u.item(LEX, r'^    enum ParseState \{', within_re=TL, name='enum ParseState (nested in text_literal)')
+    QS = 'input.spec_bytes().subrange(*old(offset) + 1, input.spec_bytes().len() as int)'
+    u.fn(LEX, r'^    fn consume_pascal_str\(input: &str, offset: &mut usize\)', name='consume_pascal_str', within_re=TL,
+         requires=['*old(offset) <= input.spec_bytes().len()', 'input.spec_bytes().len() <= isize::MAX'],
+         ensures=['*old(offset) <= *final(offset) <= input.spec_bytes().len()',
+                  # not at a quote: nothing consumed
+                  '!(*old(offset) < input.spec_bytes().len() && input.spec_bytes()[*old(offset) as int] == 0x27) ==> r is Stop && *final(offset) == *old(offset)',
+                  '(*old(offset) < input.spec_bytes().len() && input.spec_bytes()[*old(offset) as int] == 0x27) ==> !(r is Stop) && *final(offset) > *old(offset)',
+                  # closed: ends directly after the FIRST quote after the opening one, no line break in between
+                  'r is Continue ==> *final(offset) >= *old(offset) + 2 && input.spec_bytes()[*final(offset) - 1] == 0x27 && no_byte3(%s, *final(offset) - *old(offset) - 2, 0x27, 0x0a, 0x0d)' % QS,
+                  # unterminated: stops before the first line break, or at the end of the text; no quote before that
+                  'r is Unterminated ==> (*final(offset) == input.spec_bytes().len() || input.spec_bytes()[*final(offset) as int] == 0x0a || input.spec_bytes()[*final(offset) as int] == 0x0d)'
+                  ' && no_byte3(%s, *final(offset) - *old(offset) - 1, 0x27, 0x0a, 0x0d)' % QS,
+                  # in absolute positions: nothing consumed after the opening quote is a line break
+                  'forall|i: int| *old(offset) < i < *final(offset) ==> #[trigger] input.spec_bytes()[i] != 0x0a && input.spec_bytes()[i] != 0x0d'],
+         opens_with='    let ghost o0 = *offset;',
+         hints=[{'at': '*offset += pos;', 'where': 'after',
+                 'text': '            proof { lemma_no_byte3_abs(input.spec_bytes(), o0 + 1, pos as int, 0x27, 0x0a, 0x0d); }'},
+                {'at': '*offset = bytes.len();', 'where': 'after',
+                 'text': '        proof { lemma_no_byte3_abs(input.spec_bytes(), o0 + 1, input.spec_bytes().len() - o0 - 1, 0x27, 0x0a, 0x0d); }'}])
+    RUNH = lambda cls: '            proof { lemma_run_of_all(input.spec_bytes(), *offset as int, |b: u8| %s(b)); }' % cls
+    u.fn(LEX, r'^    fn consume_escaped_chars\(input: &str, offset: &mut usize\)', name='consume_escaped_chars', within_re=TL,
+         requires=['*old(offset) <= input.spec_bytes().len()', 'input.spec_bytes().len() <= isize::MAX'],
+         ensures=['*old(offset) <= *final(offset) <= input.spec_bytes().len()',
+                  '!(r is Stop)',
+                  # only escape bytes are consumed: no quote, no line break, nothing non-ASCII
+                  'forall|i: int| *old(offset) <= i < *final(offset) ==> esc_byte(#[trigger] input.spec_bytes()[i])',
+                  'r is Continue ==> *final(offset) == input.spec_bytes().len() || input.spec_bytes()[*final(offset) as int] != 0x23',
+                  # not at a `#`: nothing consumed; at a `#`: at least that byte
+                  '!(*old(offset) < input.spec_bytes().len() && input.spec_bytes()[*old(offset) as int] == 0x23) ==> r is Continue && *final(offset) == *old(offset)',
+                  '(*old(offset) < input.spec_bytes().len() && input.spec_bytes()[*old(offset) as int] == 0x23) ==> *final(offset) > *old(offset)',
+                  '*final(offset) > *old(offset) ==> esc_byte(input.spec_bytes()[*final(offset) - 1])',
+                  # a `#` / `#$` / `#%` without a digit ends the literal as unterminated, directly after that byte
+                  'r is Unterminated ==> *final(offset) > *old(offset) && (input.spec_bytes()[*final(offset) - 1] == 0x23 || input.spec_bytes()[*final(offset) - 1] == 0x24 || input.spec_bytes()[*final(offset) - 1] == 0x25)'],
+         opens_with='    let ghost o0 = *offset;',
+         loops=[{'keyword': 'loop',
+                 'invariant': ['o0 == *old(offset)', 'o0 <= *offset <= input.spec_bytes().len()', 'input.spec_bytes().len() <= isize::MAX', '*offset == o0 || (o0 < input.spec_bytes().len() && input.spec_bytes()[o0 as int] == 0x23)',
+                               'forall|i: int| o0 <= i < *offset ==> esc_byte(#[trigger] input.spec_bytes()[i])'],
+                 'decreases': 'input.spec_bytes().len() - *offset'}],
+         hints=[{'at': '*offset += count_decimal(input, *offset);', 'where': 'before', 'text': RUNH('is_dec_digit')},
+                {'at': 'match count_hex(input, *offset) {', 'where': 'before', 'text': RUNH('is_hex_digit')},
+                {'at': 'match count_binary(input, *offset) {', 'where': 'before', 'text': RUNH('is_bin_digit')}])
+
+    # ---- text_literal itself: single-line literals, multi-line literals (odd quote run + line break), escaped characters ----
+    u.raw("""
+// D11 call-site stub: `input.bytes().skip(offset).take_while(|b| b == &b'\\'').count()` (iterator adapters are outside the subset).
+// ASSUMED: the length of the maximal run of quote bytes from `offset`.
+#[verifier::external_body]
+fn count_quotes(input: &str, offset: usize) -> (r: usize)
+    requires offset <= input.spec_bytes().len()
+    ensures r == run_of(input.spec_bytes(), offset as int, |b: u8| b == 0x27)
+{ unimplemented!() }
+spec fn quote_run(a: &LexArgs) -> int { run_of(a.input.spec_bytes(), a.offset - 1, |b: u8| b == 0x27) }
+// a multi-line literal opens with an odd number (>= 3) of quotes directly followed by a line break
+spec fn opens_multiline(a: &LexArgs) -> bool {
+    quote_run(a) >= 3 && quote_run(a) % 2 == 1 && a.offset - 1 + quote_run(a) < blen(a)
+    && (a.input.spec_bytes()[a.offset - 1 + quote_run(a)] == 0x0a || a.input.spec_bytes()[a.offset - 1 + quote_run(a)] == 0x0d)
+}
+""")
+    D16 = (re.compile(r'\n    enum ParseState \{.*?\n    \}\n\n    fn consume_pascal_str.*?\n    \}\n\n    fn consume_escaped_chars.*?\n    \}\n', re.S), '\n', 'D16')
+    u.assume('D16: the items nested in text_literal (enum ParseState, fn consume_pascal_str, fn consume_escaped_chars) are emitted at module level, each verified under its own contract, and removed from the body of text_literal (same items, same names; nothing in them captures from the enclosing function)')
+    u.fn(LEX, r'^fn text_literal\(', name='text_literal',
+         edits=[D13, D16,
+                (re.compile(r"input\s*\.bytes\(\)\s*\.skip\(offset\)\s*\.take_while\(\|b\| b == &b'\\''\)\s*\.count\(\)"), 'count_quotes(input, offset)', 'D11'),
+                ('let unterminated = |offset: usize| {', 'let unterminated = |offset: usize| -> (q: OffsetAndTokenType) ensures q == ((offset, TT::TextLiteral(TLK::Unterminated))) {', 'D15'),
+                (re.compile(r'\.map\(\|pos\| \{\s*\(\s*([^()]+?),\s*(TT::TextLiteral\(TLK::MultiLine\)),\s*\)\s*\}\)'),
+                 r'.map(|pos| -> (q: OffsetAndTokenType) requires \1 <= usize::MAX ensures q == ((((\1) as usize), \2)) { (\1, \2) })', 'D15'),
+                ('.unwrap_or_else(|| unterminated(input.len()))', '.unwrap_or_else(|| -> (q: OffsetAndTokenType) ensures q.0 == input.spec_bytes().len(), q.1 == TT::TextLiteral(TLK::Unterminated) { unterminated(input.as_bytes().len()) })', 'D15')],
+         requires=['at_tok(&args)', 'first(&args) == 0x27 || first(&args) == 0x23'],
+         ensures=['sub_ok(&args, r)', 'r.1 is TextLiteral',
+                  # multi-line: ends directly after a later occurrence of the opening quote run, or runs to the end of the text
+                  'opens_multiline(&args) ==> r.1 == TT::TextLiteral(TLK::MultiLine) || (r.1 == TT::TextLiteral(TLK::Unterminated) && r.0 == blen(&args))',
+                  '!opens_multiline(&args) ==> r.1 == TT::TextLiteral(TLK::SingleLine) || r.1 == TT::TextLiteral(TLK::Unterminated)',
+                  # a single-line literal never contains a line break
+                  '!opens_multiline(&args) ==> forall|i: int| args.offset - 1 <= i < r.0 ==> #[trigger] args.input.spec_bytes()[i] != 0x0a && args.input.spec_bytes()[i] != 0x0d',
+                  '*final(args.lex_state) == *old(args.lex_state)'],
+         opens_with=PROALL + '\n    let ghost bs = args.input.spec_bytes(); let ghost o0 = args.offset - 1;\n    proof { lemma_run_of_bound(bs, o0, |b: u8| b == 0x27); lemma_run_of_all(bs, o0, |b: u8| b == 0x27); }',
+         loops=[{'keyword': 'loop',
+                 'invariant': ['bs == input.spec_bytes()', 'valid_utf8(bs)', 'bs.len() <= isize::MAX', 'o0 <= offset <= bs.len()', 'is_char_boundary(bs, offset as int)',
+                               'forall|i: int| o0 <= i < offset ==> #[trigger] bs[i] != 0x0a && bs[i] != 0x0d',
+                               'ascii_bounds_ok(bs)', '0 <= o0 < bs.len()', 'bs[o0] == 0x27 || bs[o0] == 0x23', 'orig_offset == o0', 'bs == args.input.spec_bytes()', 'o0 == args.offset - 1', '!opens_multiline(&args)',
+                               'forall|o: usize| #[trigger] unterminated.requires((o,))',
+                               'forall|o: usize, q: OffsetAndTokenType| #[trigger] unterminated.ensures((o,), q) ==> q == ((o, TT::TextLiteral(TLK::Unterminated)))'],
+                 'ensures': ['o0 < offset <= bs.len()', 'is_char_boundary(bs, offset as int)', 'forall|i: int| o0 <= i < offset ==> #[trigger] bs[i] != 0x0a && bs[i] != 0x0d'],
+                 'decreases': 'bs.len() - offset'}])
+
     # identifier starting with a non-ASCII character: first advance to the end of that character
     u.stub(LEX, r'^fn identifier\(args: LexArgs\)', name='identifier', kx='lexscan::identifier_end',
            requires=['args.offset <= blen(&args)', 'is_char_boundary(args.input.spec_bytes(), args.offset as int)'],
@@ -237,14 +489,39 @@ proof fn lemma_dec_step(s: Seq<u8>, o: int)
          loops=[{'keyword': 'while',
                  'invariant': ['args.input == args0.input', 'bs == args0.input.spec_bytes()', 'valid_utf8(bs)', 'args0.offset <= args.offset <= bs.len()', 'bs.len() <= isize::MAX', 'is_char_boundary(bs, bs.len() as int)'],
                  'decreases': 'bs.len() - args.offset'}])
+    # `&` prefix: &&name, &$FF, &%101, &123, or a lone `&` (Unknown)
+    u.stub(LEX, r'^fn unknown\(args: LexArgs\)', name='unknown', kx='lextable::dispatch',
+           requires=['args.offset >= 1', 'args.offset <= blen(&args)'], ensures=['r == ((args.offset, TT::Unknown))'])
+    u.assume('unknown: kept as a stub because its only statement besides the result is a warn! whose argument `*args.prev_byte().unwrap()` rule D2 would drop together with its panic obligation; the stub keeps that obligation as `requires args.offset >= 1`')
+    u.raw("""
+// D11 call-site stub: `count_matching(args.input, args.offset, |b| *b == b'&')` (iterator adapters + closure argument are outside the subset).
+// ASSUMED: the length of the maximal run of `&` bytes from `offset` (count_matching is bytes().skip().take_while().count()).
+#[verifier::external_body]
+fn count_ampersands(input: &str, offset: usize) -> (r: usize)
+    requires offset <= input.spec_bytes().len()
+    ensures r == run_of(input.spec_bytes(), offset as int, |b: u8| b == 0x26)
+{ unimplemented!() }
+spec fn amp_end(a: &LexArgs) -> int { a.offset + run_of(a.input.spec_bytes(), a.offset as int, |b: u8| b == 0x26) }
+spec fn amp_next(a: &LexArgs) -> u8 { a.input.spec_bytes()[amp_end(a)] }
+""")
+    u.fn(LEX, r'^fn ampersand\(mut args: LexArgs\)', name='ampersand', rebind_mut=('args', 'args0'),
+         edits=[("count_matching(args.input, args.offset, |b| *b == b'&')", 'count_ampersands(args.input, args.offset)', 'D11')],
+         requires=['at_tok(&args0)', 'first(&args0) == 0x26'],
+         ensures=['sub_ok(&args0, r)',
+                  'amp_end(&args0) < blen(&args0) && amp_next(&args0) == 0x24 ==> r.1 == TT::NumberLiteral(NLK::Hex)',
+                  'amp_end(&args0) < blen(&args0) && amp_next(&args0) == 0x25 ==> r.1 == TT::NumberLiteral(NLK::Binary)',
+                  'amp_end(&args0) < blen(&args0) && 0x30 <= amp_next(&args0) <= 0x39 ==> r.1 == TT::NumberLiteral(NLK::Decimal)',
+                  'amp_end(&args0) < blen(&args0) && (0x61 <= amp_next(&args0) <= 0x7a || 0x41 <= amp_next(&args0) <= 0x5a || amp_next(&args0) == 0x5f || amp_next(&args0) >= 0x80) ==> r.1 == TT::Identifier',
+                  '!(amp_end(&args0) < blen(&args0) && (amp_next(&args0) == 0x24 || amp_next(&args0) == 0x25 || 0x30 <= amp_next(&args0) <= 0x39 || 0x61 <= amp_next(&args0) <= 0x7a'
+                  ' || 0x41 <= amp_next(&args0) <= 0x5a || amp_next(&args0) == 0x5f || amp_next(&args0) >= 0x80)) ==> r == ((amp_end(&args0) as usize, TT::Unknown))'],
+         opens_with='    proof { lemma_tok(&args0); lemma_all_ascii_boundaries(args0.input.spec_bytes());\n'
+                    '        lemma_run_of_bound(args0.input.spec_bytes(), args0.offset as int, |b: u8| b == 0x26);\n'
+                    '        lemma_ascii_run_boundary(args0.input.spec_bytes(), args0.offset as int, |b: u8| b == 0x26); }')
+
     # keyword hash: no index / overflow panic for any word of at most 14 bytes, result bounded
     u.item(LEX, r'^    const KEYWORD_ASSO_VALUES: \[u8; 256\]', const=True, name='const KEYWORD_ASSO_VALUES',
            within_re=r'^fn get_word_token_type\(input: &str\)')
     u.fn(LEX, r'^    const fn hash_keyword\(input: &str\)', name='hash_keyword', within_re=r'^fn get_word_token_type\(input: &str\)',
          requires=['input.spec_bytes().len() <= 14'],
          ensures=['r as int <= 14 + 4 * 255'])
-    u.fn(LEX, r'^fn block_comment_kind\(nl_before: bool, nl_inside: bool\)', name='block_comment_kind',
-         ensures=['nl_inside ==> r == CommentKind::MultilineBlock',
-                  '!nl_inside && nl_before ==> r == CommentKind::IndividualBlock',
-                  '!nl_inside && !nl_before ==> r == CommentKind::InlineBlock'])
     u.raw('}\n}\nfn main() {}\n')
